@@ -179,6 +179,9 @@ impl ObjectWrite for Font {
 }
 
 
+/// character codes of composite fonts are at most two bytes long
+const MAX_CID: usize = 0xffff;
+
 #[derive(Debug)]
 pub struct Widths {
     values: Vec<f32>,
@@ -274,7 +277,7 @@ impl Font {
     }
     pub fn widths(&self, resolve: &impl Resolve) -> Result<Option<Widths>> {
         match self.data {
-            FontData::Type0(ref t0) => t0.descendant_fonts[0].widths(resolve),
+            FontData::Type0(ref t0) => try_opt!(t0.descendant_fonts.get(0)).widths(resolve),
             FontData::Type1(ref info) | FontData::TrueType(ref info) => {
                 match *info {
                     TFont { first_char: Some(first), ref widths, .. } => Ok(Some(Widths {
@@ -290,8 +293,17 @@ impl Font {
                 let mut iter = cid.widths.iter();
                 while let Some(p) = iter.next() {
                     let c1 = p.as_usize()?;
+                    if c1 > MAX_CID {
+                        bail!("CID {} out of range", c1);
+                    }
                     match iter.next() {
                         Some(Primitive::Array(array)) => {
+                            if array.is_empty() {
+                                continue;
+                            }
+                            if c1 + array.len() - 1 > MAX_CID {
+                                bail!("CID {} out of range", c1 + array.len() - 1);
+                            }
                             widths.ensure_cid(c1 + array.len() - 1);
                             for (i, w) in array.iter().enumerate() {
                                 widths.set(c1 + i, w.as_number()?);
@@ -300,6 +312,12 @@ impl Font {
                         Some(&Primitive::Reference(r)) => {
                             match resolve.resolve(r)? {
                                 Primitive::Array(array) => {
+                                    if array.is_empty() {
+                                        continue;
+                                    }
+                                    if c1 + array.len() - 1 > MAX_CID {
+                                        bail!("CID {} out of range", c1 + array.len() - 1);
+                                    }
                                     widths.ensure_cid(c1 + array.len() - 1);
                                     for (i, w) in array.iter().enumerate() {
                                         widths.set(c1 + i, w.as_number()?);
@@ -310,6 +328,9 @@ impl Font {
                         }
                         Some(&Primitive::Integer(c2)) => {
                             let w = try_opt!(iter.next()).as_number()?;
+                            if c2 < 0 || c2 as usize > MAX_CID {
+                                bail!("CID {} out of range", c2);
+                            }
                             for c in c1 ..= (c2 as usize) {
                                 widths.set(c, w);
                             }
